@@ -150,7 +150,7 @@ fn dcase_strategy(max_ops: usize) -> impl Strategy<Value = DCase> {
 fn cap_limit(eng: &Engine) -> usize {
     match eng.tier {
         Tier::Quick => 4096,
-        Tier::Thorough => 1 << 20,
+        Tier::Thorough => 1 << 16,
     }
 }
 
@@ -182,9 +182,9 @@ pub fn run(eng: &Engine) {
     eng.assume("x86-64 only: CopyType = u128 (sse2); the usize fallback path is not compiled here");
     eng.assume("accesses beyond the allocation are trapped by the harness allocator's fence mode (allocation flush against an inaccessible page, both ends in turn) also when the bytes read are discarded; reads of bytes INSIDE the allocation that were never written are visible to the release harness only when they flow into live data (poison pattern vs. queue model) - the thorough tier adds Miri for those, and AddressSanitizer (cargo-fuzz targets ringbuf_ops / decodebuf_ops) as a second engine");
     let limit = cap_limit(eng);
-    let big = if eng.tier == Tier::Quick { 1500 } else { 300_000 };
-    let n_ring = eng.tier.pick(300_000, 4_000_000);
-    let n_dbuf = eng.tier.pick(150_000, 2_000_000);
+    let big = if eng.tier == Tier::Quick { 1500 } else { 20_000 };
+    let n_ring = eng.tier.pick(300_000, 1_500_000);
+    let n_dbuf = eng.tier.pick(150_000, 1_000_000);
     eng.run_stage("ring_ops", n_ring, || ops_strategy(60, big), move |ops: &Vec<Op>, ctx| ring_case(ops, ctx, limit));
     eng.run_stage("decodebuf_ops", n_dbuf, || dcase_strategy(50), decodebuf_case);
     if !eng.has_violation() {
